@@ -542,6 +542,18 @@ def pokmforms(tier, seed, ci, nc):
                 for args, kw in value_calls(ps, maxk=2):
                     yield ('deccallendm', st, (), args, kw, ps)
                     yield ('deccallstartm', st, (), args, kw, ps)
+            # the forms stacked with an explicit selection of the other kind, in both orders (admissible ones:
+            # positional-only prefix up to st, keyword-only selection after it)
+            for k_, st in enumerate(nmd):
+                later = tuple(nmd[k_ + 1:])
+                earlier = tuple(nmd[:k_])
+                for args, kw in value_calls(ps, maxk=1):
+                    if later:
+                        for order in ('form-inner', 'form-outer'):
+                            yield ('deccallend2m', order, st, later[:1], args, kw, ps)
+                    if True:
+                        for order in ('form-inner', 'form-outer'):
+                            yield ('deccallstart2m', order, st, earlier, args, kw, ps)
     return _slice(gen(), ci, nc)
 
 
